@@ -203,7 +203,7 @@ def _star_big(out, pid, seed, thorough):
     sweep = 40 if thorough else 20
     n = sweep + (24 if thorough else 6)
     cmd = ["star-record", "--out", tr, "--seed", seed, "--scenarios", n, "--maxt", 260 if thorough else 64,
-           "--prop", pid, "--selections", 40 if thorough else 16, "--sweep", sweep]
+           "--prop", pid, "--selections", 40 if thorough else 16, "--sweep", sweep, "--bigt", 300 if thorough else 257]
     out.add_vh(run_vh(cmd, timeout=3000), only={pid})
     _trace_check(out, pid, "Trace_Star", "Trace_Star.cfg", tr, cmd, n, "STAR recovery scenario")
 
@@ -590,7 +590,7 @@ def c18(tier, seed):
     out.assumptions = ["real rayon schedules are sampled (pool sizes x repetitions), not enumerated; the schedule quantifier is "
                        "exhaustive only in the model", "the reference server reports an empty associated datum as absent"]
     lines = []
-    for c in (["Agg_1.cfg", "Agg_2.cfg", "Agg_3.cfg", "Agg_5.cfg"] + (["Agg_4.cfg", "Agg_6.cfg"] if thorough else [])):
+    for c in (["Agg_1.cfg", "Agg_2.cfg", "Agg_3.cfg", "Agg_5.cfg", "Agg_7.cfg"] + (["Agg_4.cfg", "Agg_6.cfg"] if thorough else [])):
         r = run_tlc("MC_Aggregator", c, workers=6, timeout=900, tags=("AGG",), tag="C18-" + c[:-4])
         out.add_tlc(r, "MC_Aggregator/" + c)
         lines += r.lines.get("AGG", [])[:1]
